@@ -87,6 +87,14 @@ def tasks(ctx, quick):
     for i in range(120 if quick else 1500):
         zs = rng.sample(with_radius, rng.randint(1, 4))
         comp = [[z, 0, 0, rng.choice([1, 2, 3, 4, 0.5])] for z in zs]
+        if i % 2 == 1:
+            # several species of one element (HDO, Fe{2+}Fe{3+}2O4): each atom takes its place, whatever it shares with another
+            z = rng.choice(zs)
+            if isos.get(z) and (i % 4 == 1 or not eb[z][2]):
+                comp.append([z, rng.choice(isos[z]), 0, rng.choice([1, 2, 0.5])])
+            elif eb[z][2]:
+                comp.append([z, 0, rng.choice(eb[z][2]), rng.choice([1, 2, 3])])
+            rng.shuffle(comp)
         if i % 3 == 0:
             pf = rng.choice(["cubic", "bcc", "hcp", "fcc", "diamond", "BCC", "Hcp"])
         else:
